@@ -43,9 +43,23 @@ theorem construct_ok (cls : PyCls) (sh : Shape) (r : Res) (h : construct cls sh 
     · simp [hu] at h
 
 theorem viewOp_nonreshape (cls : PyCls) (s : Shape) (op : ViewOp) (hnr : ∀ t, op ≠ .reshape t)
-    (hne : ∀ k, op ≠ .expandDims k) :
+    (hne : ∀ k, op ≠ .expandDims k) (hsq : op ≠ .squeeze) (hsa : ∀ ax, op ≠ .squeezeAxis ax) :
     viewOp cls s op = match viewShape s op with | .error e => .error e | .ok s' => .ok ⟨cls, s'⟩ := by
-  cases op <;> first | rfl | exact absurd rfl (hnr _) | exact absurd rfl (hne _)
+  cases op <;> first | rfl | exact absurd rfl (hnr _) | exact absurd rfl (hne _) | exact absurd rfl hsq | exact absurd rfl (hsa _)
+
+/-- `unyt_array.squeeze`: NumPy's shape; a 0-d result of a non-quantity unyt class is re-viewed
+    as `unyt_quantity`, everything else keeps its class -/
+theorem viewOp_squeezes (cls : PyCls) (s : Shape) (op : ViewOp) (r : Res)
+    (hop : op = .squeeze ∨ ∃ ax, op = .squeezeAxis ax) (h : viewOp cls s op = .ok r) :
+    ∃ s', viewShape s op = .ok s' ∧ r.shape = s' ∧
+      r.cls = (if s' = [] ∧ cls.isUnyt = true ∧ cls.isQuantity = false then .uquantity else cls) := by
+  rcases hop with rfl | ⟨ax, rfl⟩
+  · simp only [viewOp] at h; cases h
+    exact ⟨squeeze s, rfl, rfl, rfl⟩
+  · simp only [viewOp] at h
+    cases hv : squeezeAxis s ax with
+    | error e => simp [hv] at h
+    | ok s' => simp only [hv] at h; cases h; exact ⟨s', by simp [viewShape, hv], rfl, rfl⟩
 
 /-- `np.expand_dims` always adds a dimension -/
 theorem viewOp_expandDims (cls : PyCls) (s : Shape) (k : Nat) (r : Res)
